@@ -109,6 +109,7 @@ type gRun struct {
 	nodesObj []node
 	rank2    map[string]int
 	zcalls   map[string]int
+	nested   []string
 }
 
 // rowNames: universe nodes first (scenario order), then every other registered component sorted by name.
@@ -237,6 +238,7 @@ func runGraph(sc *gScen) *gRun {
 		res.status = "err." + res.stageOfFailure(tr, names)
 	}
 	res.created = tr.created
+	res.nested = append([]string{}, tr.nested...)
 	// rows with reflection facts
 	tyIds := map[reflect.Type]int{}
 	tyOf := func(t reflect.Type) int {
@@ -645,6 +647,11 @@ func (r *gRun) oracles() []string {
 			}
 		}
 	}
+	// C04: while a singleton is being created every lookup of its name observes its early reference — a SECOND creation of
+	// the same name must never start inside the first one
+	for _, n := range r.nested {
+		add("c04-nested-creation", "a creation of %q was started while a creation of the same name was still running", n)
+	}
 	// zero-size components are created eagerly like every other component: after a successful start each of their
 	// lifecycle callbacks (and Run, for the runners among them) ran exactly once — identity by address must not conflate them
 	if r.status == "ok" {
@@ -685,7 +692,7 @@ func (r *gRun) oracles() []string {
 		if k == 'e' {
 			continue
 		}
-		if prev, ok := last[id]; ok && rank[k] <= prev && !r.sc.reentrant() {
+		if prev, ok := last[id]; ok && rank[k] <= prev {
 			add("c05-order", "event %s out of order or repeated (events %v)", e, r.events)
 		}
 		last[id] = rank[k]
